@@ -44,7 +44,7 @@ CONFIGS = {
 
 
 
-def thorough_spec(quick, focus):
+def thorough_spec(quick, focus, cross=False, exclude=()):
     """Thorough tier = everything of the quick tier, plus every configuration with the small alphabet at depth 4, the
     standard alphabet at depth 4 on two configurations, the focus alphabets one level deeper, deep auto-repay histories
     and long lassos. Sized for roughly 10-15 minutes on 16 cores."""
@@ -56,14 +56,15 @@ def thorough_spec(quick, focus):
             have.add(item)
             items.append(item)
     for k in CONFIGS:
-        if CONFIGS[k].get("pairs", 1) == 1 and not CONFIGS[k].get("pre_bar"):
+        if CONFIGS[k].get("pairs", 1) == 1 and not CONFIGS[k].get("pre_bar") and k not in exclude:
             add((k, "small", 4))
     add(("K0p", "small", 4))
     add(("K0", "std", 4))
     add(("K1", "std", 4))
     add(("K5", "std", 3))
     add(("K7", "small", 3))
-    add(("K16", "cross", 5))
+    if cross:  # the cross-pair configuration is used by the checks whose oracles do not depend on per-pair precisions
+        add(("K16", "cross", 5))
     for k, level in focus:
         add((k, level, 5))
     for k in ("K1", "K10", "K13"):
